@@ -7,6 +7,7 @@ references" (Hts.Lemmas.BamWF).
 -/
 import Hts.Lemmas.BamStream
 import Hts.Lemmas.BamSpec
+import Hts.Lemmas.BamReadSpec
 namespace Hts.Props.C05
 open Hts.Model.Bam
 
@@ -92,6 +93,17 @@ theorem newSeq_is_spec (s : List Byte) :
       padOK s.length (contract s) = true :=
   ⟨contract_eq_packSeq s, contract_length s, contract_padOK s⟩
 
+/-- READER vs SPECIFICATION (independent of the writer): for every alignment the format can represent, reading
+`Spec.layout` of it — whoever produced those bytes, whatever its bin field holds — returns the record that stands for
+the alignment (`ofAlignment`: packed bases, CIGAR words, raw aux fields), under every Omit mode. -/
+theorem reader_accepts_spec (om : Omit) {n : Nat} {a : Hts.Spec.Bam.Alignment} (h : a.Valid n) (rest : List Byte) :
+    readRecord om n (Hts.Spec.Bam.layout a ++ rest) = .record (expected om (ofAlignment a)) rest :=
+  readRecord_layout om h rest
+
+/-- ... and that record is one the writer accepts (`WF`), so the two directions compose -/
+theorem ofAlignment_wf {n : Nat} {a : Hts.Spec.Bam.Alignment} (h : a.Valid n) : WF n (ofAlignment a) :=
+  wf_ofAlignment h
+
 /-! ### the stream -/
 
 /-- For every list of representable records, every `Write` succeeds and reading the concatenation of what was
@@ -111,6 +123,26 @@ theorem file_roundtrip {H : Type} (hc : HeaderCodec H) (om : Omit) (hd : H) (rs 
     (h : ∀ r ∈ rs, WF (hc.nrefs hd) r) :
     ∃ bytes, writeFile hc hd rs = .ok bytes ∧ readFile hc om bytes = some (hd, rs.map (expected om), none) :=
   readFile_writeFile hc om hd rs h
+
+/-- ... and under the BGZF layer, for every write concurrency `wc` and read concurrency `rd` (the BGZF codec is a
+parameter with its round-trip law, C01) -/
+theorem file_roundtrip_bgzf {H : Type} (bg : BgzfCodec) (hc : HeaderCodec H) (om : Omit) (wc rd : Nat) (hd : H)
+    (rs : List Record) (h : ∀ r ∈ rs, WF (hc.nrefs hd) r) :
+    ∃ bytes, writeFile hc hd rs = .ok bytes ∧
+      (bg.read rd (bg.write wc bytes)).bind (readFile hc om) = some (hd, rs.map (expected om), none) :=
+  readFile_writeFile_bgzf bg hc om wc rd hd rs h
+
+/-- no two representable records that differ in anything but "absent vs all-0xff qualities" are written as the same
+bytes -/
+theorem encode_injective {n : Nat} {r₁ r₂ : Record} (h₁ : WF n r₁) (h₂ : WF n r₂)
+    (he : encodeRecord r₁ = encodeRecord r₂) : norm r₁ = norm r₂ := by
+  obtain ⟨b₁, e₁, d₁⟩ := decode_encode h₁
+  obtain ⟨b₂, e₂, d₂⟩ := decode_encode h₂
+  rw [e₁, e₂] at he
+  cases he
+  have := (d₁ []).symm.trans (d₂ [])
+  simp only [ReadResult.record.injEq, and_true] at this
+  exact this
 
 /-! ### the writer's rejections and the model's fuel -/
 
@@ -152,6 +184,24 @@ example : (encodeRecord sample).toOption.map List.length = some 95 := by rfl
 example : (match encodeRecord sample with | .ok bs => readAll .none 2 (bs ++ bs) | .error _ => ([], none))
     = ([norm sample, norm sample], none) := by decide +kernel
 example : (norm sample).qual = some [0xff#8, 0xff#8, 0xff#8, 0xff#8, 0xff#8] := by rfl
+/-- a non-trivial alignment the format can represent: 3M1I, bases "ACGTN", aux `NM:C:5`, `XA:Z:hi`, `XB:B:s,1,-2` -/
+def sampleAln : Hts.Spec.Bam.Alignment :=
+  { refID := 0, pos := 100, mapq := 30, bin := 4681, flag := 99, nextRefID := 1, nextPos := 250, tlen := -154,
+    readName := [114#8, 49#8], cigar := [(3, 0), (1, 1)], seq := [1, 2, 4, 8, 15], qual := none,
+    aux := [((78#8, 77#8), .num .C 5), ((88#8, 65#8), .str [104#8, 105#8]), ((88#8, 66#8), .arr .s [1, -2])] }
+
+example : sampleAln.Valid 2 :=
+  { nrefs_lt := by decide, refID := by decide, nextRefID := by decide, pos := by decide, nextPos := by decide,
+    tlen := by decide, mapq := by decide, flag := by decide, name := by decide,
+    cigar := by simp [sampleAln], seq := by simp [sampleAln], qual := by simp [sampleAln],
+    aux := by
+      simp only [sampleAln, List.mem_cons, List.not_mem_nil, or_false, forall_eq_or_imp, forall_eq]
+      refine ⟨⟨?_, by decide, by decide⟩, ⟨?_, by decide, by decide⟩, ⟨?_, by decide, by decide⟩⟩
+      · simp [Hts.Spec.Bam.AuxValue.Valid, Hts.Spec.Bam.Elem.inRange, Hts.Spec.Bam.Elem.signed, Hts.Spec.Bam.Elem.width]
+      · simp [Hts.Spec.Bam.AuxValue.Valid]
+      · simp [Hts.Spec.Bam.AuxValue.Valid, Hts.Spec.Bam.Elem.inRange, Hts.Spec.Bam.Elem.signed, Hts.Spec.Bam.Elem.width],
+    size := by decide +kernel }
+
 /-- what the model says the code does on inputs outside `WF` (checked against the implementation by the harness):
 a CIGAR op code 11 makes the writer panic (defect #8), a `B` array with sub-type `Z` and count 8 never terminates,
 a `B` header cut short panics (defect #13) -/
